@@ -46,6 +46,8 @@ func genPlanC14(rt *rapid.T) *RPlan {
 		st := RSend{AfterUs: rapid.SampledFrom([]int{0, 0, 50, 400}).Draw(rt, "gap"), Tag: tag}
 		if rapid.IntRange(0, 9).Draw(rt, "fail") == 0 {
 			st.Fail = true
+		} else if rapid.IntRange(0, 24).Draw(rt, "unsendable") == 0 {
+			st.Bad = true
 		}
 		tag++
 		p.Senders[l] = append(p.Senders[l], st)
@@ -165,7 +167,7 @@ func TestC14(t *testing.T) {
 
 func genPlanC13(rt *rapid.T) *RPlan {
 	p := &RPlan{Retain: 8}
-	p.PauseUs = rapid.SampledFrom([]int{0, 1000, 2000, 5000, 20000}).Draw(rt, "pause")
+	p.PauseUs = rapid.SampledFrom([]int{0, 1000, 2000, 5000, 20000, 250, 500, 999, 1001, 1500}).Draw(rt, "pause")
 	p.Scenario = rapid.SampledFrom([]string{"pacing", "pacing", "idle", "idle", "saturated", "saturated", "storm", "storm", "close-in-inhibit"}).Draw(rt, "scenario")
 	lanes := rapid.IntRange(1, 8).Draw(rt, "senders")
 	budgetUs := 250_000 // keep a case within a few hundred ms of real time
